@@ -9,6 +9,7 @@ import ast
 
 from ..core import RuleResult, need
 from ..cfg import cfg_of
+from ..flow import flow_of
 from ..astutil import src, call_attr, call_name, is_name, path_of, walk_no_nested, compare_parts
 
 CONGC = 'prover/congc.py'
@@ -249,5 +250,44 @@ def rule_g7(repo):
     return res
 
 
+def rule_g8(repo):
+    """explain(s, t) stores under the key (s, t) the chain of equations that leads *from s to t*: up from s to
+    the common ancestor, then down to t.  The consumer (CongClosureHOL.get_proofterm) walks the chain from s.  Every
+    store into the result must therefore be the chain built in this activation from the path of the first key
+    component followed by the path of the second - not an entry copied from another key (the chain of (t, s) runs
+    the other way)."""
+    res = RuleResult('C17.G8', 'an explanation is stored under the pair it was computed for, in that direction', floor=1)
+    cls = repo.module(CONGC).classes['CongClosure']
+    f = need(cls.find_method('explain'), 'CongClosure.explain not found')
+    ps = f.params()
+    s_p, t_p = ps[1], ps[2]
+    flow = flow_of(f.node)
+    stores = [a for a in ast.walk(f.node) if isinstance(a, ast.Assign) and isinstance(a.targets[0], ast.Subscript) and is_name(a.targets[0].value, 'res')]
+    need(stores, 'explain: no store into the result found')
+    paths = {}
+    for a in ast.walk(f.node):
+        if isinstance(a, ast.Assign) and isinstance(a.value, ast.Call) and call_attr(a.value) == '_path_to_root' and isinstance(a.targets[0], ast.Name) and a.value.args and isinstance(a.value.args[0], ast.Name):
+            paths[a.value.args[0].id] = a.targets[0].id
+    for a in stores:
+        key = a.targets[0].slice
+        problems = []
+        if not (isinstance(key, ast.Tuple) and len(key.elts) == 2 and is_name(key.elts[0], s_p) and is_name(key.elts[1], t_p)):
+            problems.append('the key `%s` is not the pair (%s, %s) of this call' % (src(key, 30), s_p, t_p))
+        v = a.value
+        if any(isinstance(x, ast.Subscript) and is_name(x.value, 'res') for x in ast.walk(v)) or \
+                any(isinstance(x, ast.Call) and call_attr(x) == 'get' and is_name(x.func.value, 'res') for x in ast.walk(v)):
+            problems.append('the value `%s` is an entry stored for another pair' % src(v, 40))
+        else:
+            closure = flow.names_closure(v)
+            if not (paths.get(s_p) in closure and paths.get(t_p) in closure):
+                problems.append('the value does not come from the paths of %s and %s to their root' % (s_p, t_p))
+        res.add('%s :: CongClosure.explain :: store(%s)' % (CONGC, src(a.targets[0], 30)), not problems,
+                'the chain built here from the path of %s, then of %s' % (s_p, t_p) if not problems else
+                'line %d: %s -- the consumer walks the chain from the first component of the key: a chain that runs from %s to %s under the key '
+                '(%s, %s) makes get_proofterm fail although test() says the terms are equal' % (a.lineno, '; '.join(problems), t_p, s_p, s_p, t_p),
+                '%s:%d' % (CONGC, a.lineno))
+    return res
+
+
 def rules(repo):
-    return [rule_g1(repo), rule_g2(repo), rule_g3(repo), rule_g4(repo), rule_g5(repo), rule_g6(repo), rule_g7(repo)]
+    return [rule_g1(repo), rule_g2(repo), rule_g3(repo), rule_g4(repo), rule_g5(repo), rule_g6(repo), rule_g7(repo), rule_g8(repo)]
